@@ -8,7 +8,7 @@ reads, membership, best_match, to_header, ...), an outcome
 
     kd = 0    a value was returned,           ty = its type signature (see `sig`)
     kd = 1    an exception that is not a werkzeug HTTPException escaped,  ty = its class name
-    kd = 2    the wall budget was exhausted (treated as non-termination), ty = "Timeout"
+    kd = 2    the CPU-time budget was exhausted (treated as non-termination), ty = "Timeout"
     kd = 3    the position was not executed because the call did not return an object to use
     kd = 4xx  (or any other status code) a werkzeug HTTPException escaped, ty = its class name
 
@@ -22,7 +22,7 @@ import signal
 
 from .core import cps
 
-BUDGET_S = 5.0          # wall budget of one call including all its uses (inputs are <= 8 KiB)
+BUDGET_S = 10.0         # CPU-time budget of one call including all its uses (inputs are <= ~8 KiB)
 
 BODY_URL = b"a=1&b=%C3%A9&a=2"
 BODY_MP = b'--b\r\nContent-Disposition: form-data; name="f"\r\n\r\nv\r\n--b\r\nContent-Disposition: form-data; name="u"; ' \
@@ -286,8 +286,9 @@ def run_call(fn: str, slot: str, s: str, budget: float = BUDGET_S) -> dict:
     call, uses = table()[fn]
     n = 1 + len(uses)
     kd, ty = [], []
-    old = signal.signal(signal.SIGALRM, _alarm)
-    signal.setitimer(signal.ITIMER_REAL, budget)
+    if signal.getsignal(signal.SIGVTALRM) is not _alarm:
+        signal.signal(signal.SIGVTALRM, _alarm)
+    signal.setitimer(signal.ITIMER_VIRTUAL, budget)
     try:
         if fn == "Request":
             from werkzeug.wrappers import Request
@@ -307,8 +308,7 @@ def run_call(fn: str, slot: str, s: str, budget: float = BUDGET_S) -> dict:
             kd.append(2)
             ty.append(["Timeout"])
     finally:
-        signal.setitimer(signal.ITIMER_REAL, 0)
-        signal.signal(signal.SIGALRM, old)
+        signal.setitimer(signal.ITIMER_VIRTUAL, 0)
     while len(kd) < n:
         kd.append(3)
         ty.append(["-"])
